@@ -133,7 +133,9 @@ class StreamAutomaton:
             self.running = False
             self.pending_tc = None
         elif name == "STOPPING_EVENT":
-            pass
+            # stop() is refused (and notifies nobody) unless the simulator is starting or running
+            if not (self.running or self.starting_pending):
+                return "STOPPING-while-not-starting-or-running"
         elif name == "TIME_CHANGED_EVENT":
             if not self.started_rep or not self.running:
                 return "TIME_CHANGED-outside-START/STOP"
